@@ -217,6 +217,10 @@ class Ctx:
             raise Broken('TLC timeout on %s/%s after %ds' % (module, cfg, timeout))
         if res['error'] and not res['violation']:
             raise Broken('TLC error on %s/%s:\n%s' % (module, cfg, out[-3000:]))
+        if rc != 0 and not res['violation']:
+            raise Broken('TLC ended abnormally (rc=%d) on %s/%s:\n%s' % (rc, module, cfg, out[-2000:]))
+        if rc == 0 and 'Model checking completed' not in out and 'Finished in' not in out:
+            raise Broken('TLC did not complete on %s/%s:\n%s' % (module, cfg, out[-2000:]))
         if res['violation'] and not expect_violation:
             raise Broken('specification %s/%s violates its own property %s — spec defect, not a verdict:\n%s'
                          % (module, cfg, res['violation'], out[-3000:]))
